@@ -475,9 +475,16 @@ class GitTree(_mod_tree.Tree):
             path: The path to check.
 
         Returns:
-            bool: True if the path starts with ".git" and is special.
+            bool: True if the path is one of git's own files (or below
+                ".git"); other names that merely start with ".git", such
+                as ".github" or ".gitlab-ci.yml", are ordinary content.
         """
-        return path.startswith(".git")
+        return path.split("/", 1)[0] in (
+            ".git",
+            ".gitignore",
+            ".gitattributes",
+            ".gitmodules",
+        )
 
     def supports_symlinks(self):
         """Check if this tree supports symbolic links.
